@@ -5,6 +5,9 @@
 #include "vf.h"
 #include "cfg.h"
 #include "model.h"
+#if WSEL == 0 && NBITS <= 64
+    #include <bitset> // second oracle: libstdc++ std::bitset through the same pipeline (q_model_vs_std*)
+#endif
 using u64 = uint64_t;
 using Mo = bsm::M<NBITS>;
 extern "C" {
@@ -367,4 +370,54 @@ Q q_ctor_cs_dflt()
     NEW(o); k_new_cs_dflt(o, s); om.from_str<CH, SLEN>(s, SLEN, 0, NPOS, CH('0'), CH('1'));
     observe(o, om);
 }
+    #if NBITS <= 64
+// ---------------------------------------------------------------------------------------------------------------------
+// the oracle itself against libstdc++'s std::bitset<N>, symbolically (no tetl code involved): one symbolic operation from a
+// symbolic value, then every observer; and the string constructor (char const*, n, zero, one)
+// ---------------------------------------------------------------------------------------------------------------------
+static void model_eq_std(Mo const& m, std::bitset<NBITS> const& s)
+{
+    for (unsigned i = 0; i < NBITS; i++) vf_assert(s[i] == m.b[i], "model bit == std::bitset bit");
+    vf_assert(s.count() == m.count(), "model count == std::bitset::count");
+    vf_assert(s.all() == m.all(), "model all == std::bitset::all");
+    vf_assert(s.any() == m.any(), "model any == std::bitset::any");
+    vf_assert(s.none() == !m.any(), "model none == std::bitset::none");
+    vf_assert(s.to_ullong() == m.to_ull(), "model to_ull == std::bitset::to_ullong");
+}
+Q q_model_vs_std()
+{
+    unsigned long long v = vf_nd_u64(), v2 = vf_nd_u64();
+    unsigned op = vf_nd_u8(); u64 pos = nd_pos(); bool val = nd_bool();
+    vf_assume(op < 12);
+    Mo m, c; m.from_ull(v); c.from_ull(v2);
+    std::bitset<NBITS> s(v), t(v2);
+    vf_assert(m.eq(c) == (s == t), "model eq == std::bitset ==");
+    switch (op) {
+    case 0: m.set_all(); s.set(); break;
+    case 1: m.set(pos, val); s.set(pos, val); break;
+    case 2: m.reset_all(); s.reset(); break;
+    case 3: m.set(pos, false); s.reset(pos); break;
+    case 4: m.flip_all(); s.flip(); break;
+    case 5: m.flip(pos); s.flip(pos); break;
+    case 6: m.set(pos, val); s[pos] = val; break;
+    case 7: m.flip(pos); s[pos].flip(); break;
+    case 8: m.and_eq_(c); s &= t; break;
+    case 9: m.or_eq_(c); s |= t; break;
+    case 10: m.xor_eq_(c); s ^= t; break;
+    default: m.flip_all(); s = ~s; break;
+    }
+    model_eq_std(m, s);
+    vf_assert(m.test(pos) == s.test(pos), "model test(pos) == std::bitset::test");
+}
+Q q_model_vs_std_str()
+{
+    CH* s = sym(SLEN); u64 n = vf_nd_u64(); CH zero = nd_ch(), one = nd_ch();
+    vf_assume(n <= SLEN);
+    vf_assume(s_valid(s, n, 0, n, zero, one));
+    Mo m; m.from_str<CH, SLEN>(s, n, 0, n, zero, one);
+    std::bitset<NBITS> b(s, n, zero, one);
+    model_eq_std(m, b);
+    if (SLEN > NBITS && n > NBITS) vf_witness("string longer than the bitset");
+}
+    #endif
 #endif
